@@ -7,6 +7,7 @@
 #include "exec.hpp"
 #include "gen.hpp"
 #include "mini.hpp"
+#include "schedcore.hpp"
 
 #include <atomic>
 #include <climits>
@@ -24,96 +25,11 @@ __tsan_default_options() {
            "second_deadlock_stack=1:history_size=4";
 }
 
-#if defined(__clang__)
-#define YS_NOSAN __attribute__((disable_sanitizer_instrumentation, noinline))
-#else
-#define YS_NOSAN __attribute__((no_sanitize("thread"), noinline))
-#endif
-
 namespace ys {
 
 void install_hooks();
 
 namespace {
-
-constexpr int MAXTASK = 8;
-
-// ---- scheduler state: only touched from YS_NOSAN functions
-struct SchedWords {
-    int wake[MAXTASK];
-    int sched;
-    int done[MAXTASK];
-    int hook_budget[MAXTASK];
-};
-SchedWords sw;
-thread_local int t_task = -1;
-
-YS_NOSAN void futex_wait_for(int* word) {
-    for (;;) {
-        int v = __atomic_load_n(word, __ATOMIC_SEQ_CST);
-        if (v) {
-            __atomic_store_n(word, 0, __ATOMIC_SEQ_CST);
-            return;
-        }
-        syscall(SYS_futex, word, FUTEX_WAIT_PRIVATE, 0, nullptr, nullptr, 0);
-    }
-}
-
-YS_NOSAN void futex_post(int* word) {
-    __atomic_store_n(word, 1, __ATOMIC_SEQ_CST);
-    syscall(SYS_futex, word, FUTEX_WAKE_PRIVATE, 1, nullptr, nullptr, 0);
-}
-
-// task side: give the token back and wait to be picked again
-YS_NOSAN void task_yield() {
-    int t = t_task;
-    if (t < 0)
-        return;
-    futex_post(&sw.sched);
-    futex_wait_for(&sw.wake[t]);
-}
-
-YS_NOSAN void task_begin(int t) {
-    t_task = t;
-    futex_wait_for(&sw.wake[t]);
-}
-
-YS_NOSAN void task_end() {
-    int t = t_task;
-    __atomic_store_n(&sw.done[t], 1, __ATOMIC_SEQ_CST);
-    t_task = -1;
-    futex_post(&sw.sched);
-}
-
-YS_NOSAN void sched_release(int t) {
-    futex_post(&sw.wake[t]);
-    futex_wait_for(&sw.sched);
-}
-
-YS_NOSAN bool sched_is_done(int t) {
-    return __atomic_load_n(&sw.done[t], __ATOMIC_SEQ_CST) != 0;
-}
-
-YS_NOSAN void sched_reset(int ntasks, int hook_budget) {
-    for (int i = 0; i < MAXTASK; ++i) {
-        sw.wake[i] = 0;
-        sw.done[i] = i < ntasks ? 0 : 1;
-        sw.hook_budget[i] = hook_budget;
-    }
-    sw.sched = 0;
-}
-
-// hook H2: a scheduling point inside yomm2
-YS_NOSAN void hook_yield(const char*) {
-    int t = t_task;
-    if (t < 0)
-        return;
-    if (sw.hook_budget[t] <= 0)
-        return;
-    --sw.hook_budget[t];
-    futex_post(&sw.sched);
-    futex_wait_for(&sw.wake[t]);
-}
 
 // ---- the case
 
@@ -411,6 +327,10 @@ J sched_gen(std::uint64_t seed, int tier, long) {
     // cold runs: the process has never dispatched or built a pointer for this
     // policy before the threads start, so first-use paths run concurrently
     c.set("cold", r.chance(0.08) ? 1 : 0);
+    // scheduling points right before atomic operations (reference counts of
+    // shared_ptr, anything atomic inside yomm2): every n-th one of a task
+    c.set("atom_period", r.chance(0.5) ? (int)r.range(1, 6) : 0);
+    c.set("atom_budget", (int)r.range(5, 80));
     return c;
 }
 
@@ -556,7 +476,7 @@ MiniOutcome sched_run(const J& c) {
     std::uint64_t checksum0 = cx.A->published_checksum();
     int ntasks = ncallers + 1;
     int hook_yields = (int)c.geti("hook_yields", 0);
-    sched_reset(ntasks, hook_yields);
+    sched_reset(ntasks, hook_yields, (int)c.geti("atom_period", 0), (int)c.geti("atom_budget", 0));
     yorel::yomm2::verif::hooks.yield = hook_yields ? &hook_yield : nullptr;
 
     std::vector<std::thread> threads;
@@ -678,6 +598,7 @@ MiniOutcome sched_run(const J& c) {
         o.counters["fault:" + kv.first] += kv.second;
     if (hook_yields)
         o.counters["runs_with_yields_inside_yomm2"] = 1;
+    o.counters["yields_before_atomic_operations"] = sched_atom_yields();
     return o;
 }
 
@@ -744,6 +665,11 @@ std::vector<J> sched_shrinks(const J& c) {
         d.set("cold", 0);
         out.push_back(d);
     }
+    if (c.geti("atom_period", 0)) {
+        J d = c;
+        d.set("atom_period", 0);
+        out.push_back(d);
+    }
     return out;
 }
 
@@ -775,6 +701,7 @@ MiniEngine sched_engine() {
         s.set("sched_seed", J((unsigned long long)c.getu("sched_seed", 0)));
         s.set("hook_yields", c.geti("hook_yields", 0));
         s.set("cold", c.geti("cold", 0));
+        s.set("atom_period", c.geti("atom_period", 0));
         return s;
     };
     e.pristine = [](const J& c) { return c.geti("cold", 0) != 0; };
